@@ -2,6 +2,9 @@ package ocsp
 
 import (
 	"crypto/x509"
+	"io"
+	"net/http"
+	"net/url"
 	"crypto/x509/pkix"
 	"math/big"
 	"time"
@@ -233,6 +236,11 @@ var (
 // candSearchFails: the issuer-candidate search itself reports an error (e.g. an AKI form it does not support)
 var candSearchFails bool
 
+var (
+	reqReader map[*http.Request]io.Reader
+	reqURL    map[*http.Request]string
+)
+
 func installOCSPWorld(ncand int) {
 	candSearchFails = false
 	resps, httpLog = nil, nil
@@ -249,17 +257,42 @@ func installOCSPWorld(ncand int) {
 		return modelParse(b, nil, issuer)
 	})
 	verifrt.Override("golang.org/x/crypto/ocsp.ParseResponseForCert", modelParse)
-	verifrt.Override("(*"+modRoot+"/ocsp.OCSPRevocationChecker).executeHttpRequest", func(c *OCSPRevocationChecker, server string, cert, issuer *x509.Certificate) ([]byte, error) {
-		k := server + "|" + string(rune('0'+candIdx(issuer)))
+	// The network is modelled at the HTTP client, below the code under test: the real request construction
+	// and response reading run. A request is the two bytes naming the issuer candidate it was built for; the
+	// responder answers only a request it can decode (a drained or missing body is answered "malformed").
+	reqReader = map[*http.Request]io.Reader{}
+	reqURL = map[*http.Request]string{}
+	verifrt.Override("golang.org/x/crypto/ocsp.CreateRequest", func(cert, issuer *x509.Certificate, opts *xocsp.RequestOptions) ([]byte, error) {
+		return []byte{0xC0, byte(candIdx(issuer))}, nil
+	})
+	verifrt.OverrideIfPresent("net/http.NewRequest", func(method, u string, b io.Reader) (*http.Request, error) {
+		r := &http.Request{Method: method, Header: http.Header{}}
+		reqReader[r], reqURL[r] = b, u
+		return r, nil
+	})
+	verifrt.OverrideIfPresent("net/url.Parse", func(raw string) (*url.URL, error) { return &url.URL{Host: "ocsp.example.com"}, nil })
+	verifrt.OverrideIfPresent("(net/http.Header).Add", func(h http.Header, k, v string) {})
+	verifrt.OverrideIfPresent("(net/http.Header).Set", func(h http.Header, k, v string) {})
+	verifrt.OverrideIfPresent("(*net/http.Client).Do", func(c *http.Client, r *http.Request) (*http.Response, error) {
+		server := reqURL[r]
+		var data []byte
+		if rd := reqReader[r]; rd != nil {
+			data, _ = io.ReadAll(rd) // the transport consumes the body it was given
+		}
 		httpLog = append(httpLog, server)
+		if len(data) != 2 || data[0] != 0xC0 {
+			// the responder cannot decode the request: malformedRequest (an unsuccessful, unsigned answer)
+			return &http.Response{StatusCode: 200, ContentLength: 2, Body: &bodyModel{data: []byte{0xBA, 0xD0}}}, nil
+		}
+		k := server + "|" + string(rune('0'+int(data[1])))
 		v := httpScript[k]
 		if v == 0 {
 			return nil, verifrt.NewError("connection refused")
 		}
 		if v < 0 {
-			return nil, nil
+			return &http.Response{StatusCode: 200, ContentLength: 0, Body: &bodyModel{}}, nil
 		}
-		return respBytes(v - 1), nil
+		return &http.Response{StatusCode: 200, ContentLength: 2, Body: &bodyModel{data: respBytes(v - 1)}}, nil
 	})
 	verifrt.Override(modRoot+"/core.FindCertificateIssuerCandidates", func(issuer *pkix.RDNSequence, ext *[]pkix.Extension, alg x509.PublicKeyAlgorithm, chains *core.CertificateChains) ([]*core.CertificateChainEntry, error) {
 		if candSearchFails {
@@ -321,3 +354,33 @@ func symResp(presented *big.Int, other *big.Int, ncand int) *modelResp {
 	resps = append(resps, r)
 	return r
 }
+
+// bodyModel: a response body delivered in pieces of at most chunk bytes (0 = as asked)
+type bodyModel struct {
+	data   []byte
+	pos    int
+	chunk  int
+	closed bool
+}
+
+func (b *bodyModel) Read(p []byte) (int, error) {
+	if len(p) == 0 {
+		return 0, nil
+	}
+	rem := len(b.data) - b.pos
+	if rem <= 0 {
+		return 0, io.EOF
+	}
+	k := len(p)
+	if k > rem {
+		k = rem
+	}
+	if b.chunk > 0 && k > b.chunk {
+		k = b.chunk
+	}
+	copy(p[:k], b.data[b.pos:b.pos+k])
+	b.pos += k
+	return k, nil
+}
+func (b *bodyModel) Close() error { b.closed = true; return nil }
+
